@@ -362,8 +362,12 @@ func nilEdgesOfX(e ssa.Value) (edges []xedge, returned bool, otherUse bool) {
 						}
 						follow(ld, ex)
 					}
-				} else if _, ok := r.Addr.(*ssa.FreeVar); ok && r.Val == v {
-					returned = true // closure hands the error to its parent through a captured variable
+				} else if fv, ok := r.Addr.(*ssa.FreeVar); ok && r.Val == v {
+					// closure hands the error to its parent through a captured variable -- provided the
+					// stored value can still be there when the literal returns (not overwritten on every path)
+					if storeSurvivesToExit(r, fv) {
+						returned = true
+					}
 				} else {
 					otherUse = true
 				}
@@ -376,6 +380,25 @@ func nilEdgesOfX(e ssa.Value) (edges []xedge, returned bool, otherUse bool) {
 	}
 	follow(e, true)
 	return
+}
+
+// storeSurvivesToExit: some exit of the literal is reachable from the store without another store to the same captured variable.
+func storeSurvivesToExit(st *ssa.Store, fv *ssa.FreeVar) bool {
+	fn := st.Parent()
+	cuts, exits := NewSet(), NewSet()
+	for _, ref := range *fv.Referrers() {
+		if o, ok := ref.(*ssa.Store); ok && o != st && o.Addr == ssa.Value(fv) {
+			cuts.AddI(o)
+		}
+	}
+	for _, b := range fn.Blocks {
+		if len(b.Instrs) > 0 {
+			if r, ok := b.Instrs[len(b.Instrs)-1].(*ssa.Return); ok {
+				exits.AddI(r)
+			}
+		}
+	}
+	return len(Reach(fn, []Point{After(st)}, exits, cuts)) > 0
 }
 
 // nonNilOnEdge: pred ends in an If that compares op with nil and the edge pred->to is its non-nil edge.
